@@ -141,11 +141,93 @@ def gen_input_module(rng, mostly_good=True, n_entries=None, kinds=None):
 _COUNTER = [0]
 
 
-def _new_case(rng, fn, **kw):
+def _new_uid(rng):
     _COUNTER[0] += 1
-    c = {"fam": NAME, "fn": fn, "uid": "%d_%06d" % (_COUNTER[0], rng.randrange(10 ** 6)), "tags": []}
+    return "%d_%06d" % (_COUNTER[0], rng.randrange(10 ** 6))
+
+
+def _new_case(rng, fn, uid=None, **kw):
+    c = {"fam": NAME, "fn": fn, "uid": uid or _new_uid(rng), "tags": []}
     c.update(kw)
     return c
+
+
+# ------------------------------------------------------------------ where the input module lives, how it is named
+# layout of the directory put on sys.path: {"kind": "flat"} = <base>.py; {"kind": "pkg", "depth": d, "reexport": b} =
+# package <base> holding mod.py (d = 1) or sub/mod.py (d = 2); with reexport every __init__.py imports the object of the
+# first mapping entry from below, so that <base>.<Obj> names it as well
+SYMBOL_FORMS = ["obj", "obj", "obj", "member", "reexported", "from-mod", "bare", "aliased"]
+
+
+def draw_layout(rng):
+    r = rng.random()
+    if r < 0.6:
+        return {"kind": "flat"}
+    return {"kind": "pkg", "depth": 1 if r < 0.85 else 2, "reexport": rng.random() < 0.5}
+
+
+def names_of(case):
+    """the names the materialised input module goes by: base (top-level name), modname (dotted module holding the
+    mapping M), parent (the package holding that module, '' when flat), leaf, obj (object of the first entry), cls"""
+    base = "verif_genin_" + case.get("modbase", case["uid"])
+    lay = case.get("layout") or {"kind": "flat"}
+    if lay["kind"] == "flat":
+        modname, parent, leaf = base, "", base
+    else:
+        parent = base if lay.get("depth", 1) == 1 else base + ".sub"
+        modname, leaf = parent + ".mod", "mod"
+    ents = case["module"]["entries"]
+    obj = ents[0]["feat"]["obj"] if ents else None
+    cls = next((e["feat"]["obj"] for e in ents if e["feat"]["kind"] == "class"), None)
+    return dict(base=base, modname=modname, parent=parent, leaf=leaf, obj=obj, cls=cls,
+                reexport=bool(lay["kind"] == "pkg" and lay.get("reexport") and obj))
+
+
+def symbol_path(case):
+    """the dotted path given as imports_from_file when case['imports'] is {"how": "symbol", "form": f}: it names an
+    object defined in the input module, not a module; gen documents "if module or other symbol path given, resolve file
+    then use it".  Returns (path, the import statement that binds the path's first component)"""
+    n = names_of(case)
+    form = case["imports"].get("form", "obj")
+    mod, obj = n["modname"], n["obj"]
+    if obj is None:                                   # empty mapping: nothing to name but the mapping itself
+        form = "mapping"
+    if form == "member" and n["cls"] is None:
+        form = "obj"
+    if form == "reexported" and not n["reexport"]:
+        form = "obj"
+    if form == "from-mod" and not n["parent"]:
+        form = "bare"
+    if form == "obj":
+        return mod + "." + obj, "import " + mod
+    if form == "member":                              # a function object inside a class: one level deeper
+        return mod + "." + n["cls"] + ".__init__", "import " + mod
+    if form == "reexported":                          # <base>.<Obj>, defined in <base>[.sub].mod
+        return n["base"] + "." + obj, "import " + n["base"]
+    if form == "from-mod":                            # path relative to a from-imported module
+        return n["leaf"] + "." + obj, "from %s import %s" % (n["parent"], n["leaf"])
+    if form == "bare":                                # the from-imported object itself
+        return obj, "from %s import %s" % (mod, obj)
+    if form == "aliased":
+        return "vg_alias." + obj, "import %s as vg_alias" % mod
+    if form == "mapping":                             # a dict: belongs to no module (resolution raises TypeError)
+        return mod + ".M", "import " + mod
+    raise KeyError(form)
+
+
+def supporting_prepend(rng, import_line, shape=None):
+    """a prepend text holding `import_line` in one of the shapes prepended text comes in"""
+    shape = shape or rng.choice(["plain", "plain", "plain", "no-nl", "doc", "import-before", "import-after", "stmt-after",
+                                 "stmt-after-no-nl", "blank-lines", "doc-stmt"])
+    return {"plain": import_line + "\n",
+            "no-nl": import_line,
+            "doc": '"""Generated."""\n' + import_line + "\n",
+            "import-before": "import os\n" + import_line + "\n",
+            "import-after": import_line + "\nfrom os import sep\n",
+            "stmt-after": import_line + "\nPI = 3\n",
+            "stmt-after-no-nl": import_line + "\nPI = 3",
+            "blank-lines": "\n" + import_line + "\n\n",
+            "doc-stmt": '"""Doc"""\nX = 1\n' + import_line}[shape]
 
 
 def gen_case(rng, **force):
@@ -158,41 +240,61 @@ def gen_case(rng, **force):
     r = rng.random()
     tpl = force.get("name_tpl") or (rng.choice(TEMPLATES_GOOD[:2]) if r < 0.6 else rng.choice(TEMPLATES_GOOD) if r < 0.9
                                     else rng.choice(TEMPLATES_BAD))
+    uid = _new_uid(rng)
+    wellformed = force.get("domain") == "wellformed"   # only shapes the documentation of gen promises to handle
+    layout = force["layout"] if "layout" in force else draw_layout(rng)
+    probe = {"uid": uid, "modbase": uid, "layout": layout, "module": mod}
     r = rng.random()
+    if "imports" in force:
+        imports = force["imports"]
+    elif r < 0.3:
+        imports = {"how": "none"}
+    elif r < 0.5:
+        imports = {"how": "module"}
+    elif r < 0.62:
+        imports = {"how": "file"}
+    elif r < 0.78:
+        imports = {"how": "symbol", "form": rng.choice(SYMBOL_FORMS)}
+    elif r < 0.95 or wellformed:
+        k = rng.choice([0, 1, 1, 2, 3])
+        lines = rng.sample(IMPORT_LINES, k)
+        if rng.random() < 0.3:
+            lines.insert(0 if wellformed else rng.randint(0, len(lines)), FUTURE)
+        extra = [] if wellformed else rng.choice([[], ["X = 1"], ['"""doc"""'], ["def q():", "    import re"],
+                                                  ["if True:", "    import re"]])
+        imports = {"how": "other", "src": "\n".join(extra[:1] + lines + extra[1:]) + "\n"}
+    elif r < 0.97:
+        imports = {"how": "missing"}
+    elif r < 0.985:
+        imports = {"how": "symbol", "form": "mapping"}
+    else:
+        imports = {"how": "other", "src": "import (\n"}
+    r = rng.random()
+    shape = force.get("prepend_shape")                 # force: a prepend importing the input module, in this shape
     if "prepend" in force:
         prepend = force["prepend"]
-    elif r < 0.4:
+    elif imports["how"] == "symbol" and (wellformed or shape or r < 0.85):
+        # a symbol path is resolved through the names the prepended imports bind: prepend the import it needs
+        prepend = supporting_prepend(rng, symbol_path(dict(probe, imports=imports))[1], shape)
+    elif shape:
+        prepend = supporting_prepend(rng, "import " + names_of(probe)["modname"], shape)
+    elif r < 0.35:
         prepend = None
-    elif r < 0.8:
+    elif r < 0.7:
         prepend = rng.choice(PREPENDS_GOOD)
-    elif r < 0.88:
+    elif r < 0.8 or (wellformed and r < 0.9):
         prepend = rng.choice(PREPENDS_NO_NL)
+    elif r < 0.88 or wellformed:
+        # the generated module refers to the module it was generated from
+        n = names_of(probe)
+        prepend = supporting_prepend(rng, rng.choice(["import " + n["modname"], "import " + n["base"],
+                                                      "from %s import M" % n["modname"]]))
     elif r < 0.92:
         prepend = ""
     elif r < 0.96:
         prepend = rng.choice(PREPENDS_BAD)
     else:
         prepend = rng.choice(PREPENDS_UNIMPORTABLE)
-    r = rng.random()
-    if "imports" in force:
-        imports = force["imports"]
-    elif r < 0.35:
-        imports = {"how": "none"}
-    elif r < 0.6:
-        imports = {"how": "module"}
-    elif r < 0.75:
-        imports = {"how": "file"}
-    elif r < 0.95:
-        k = rng.choice([0, 1, 1, 2, 3])
-        lines = rng.sample(IMPORT_LINES, k)
-        if rng.random() < 0.3:
-            lines.insert(rng.randint(0, len(lines)), FUTURE)
-        extra = rng.choice([[], ["X = 1"], ['"""doc"""'], ["def q():", "    import re"], ["if True:", "    import re"]])
-        imports = {"how": "other", "src": "\n".join(extra[:1] + lines + extra[1:]) + "\n"}
-    elif r < 0.98:
-        imports = {"how": "missing"}
-    else:
-        imports = {"how": "other", "src": "import (\n"}
     r = rng.random()
     mapping_ref = force.get("mapping_ref") or ("ok" if r < 0.93 else rng.choice(["nodot", "nomodule", "noattr"]))
     existing = force["existing"] if "existing" in force else (
@@ -201,10 +303,12 @@ def gen_case(rng, **force):
             "decorator_list": None if rng.random() < 0.85 else rng.choice([[], ["dataclass"], ["a", "b.c"]])}
     if rng.random() < 0.04 and mod["entries"] and not force.get("plain_keys"):
         mod["entries"][0]["key_override"] = rng.choice(["a b", "x-y", "1st", "it's", "q\"q", "back\\slash"])
-    tags += ["type-" + type_, "imports-" + imports["how"], "prepend-" + ("none" if prepend is None else "given"),
-             "existing" if existing is not None else "fresh"]
-    c = _new_case(rng, "gen", module=mod, type_=type_, name_tpl=tpl, prepend=prepend, imports=imports,
-                  mapping_ref=mapping_ref, existing=existing, opts=opts)
+    tags += ["type-" + type_, "imports-" + imports["how"] + ("-" + imports["form"] if "form" in imports else ""),
+             "prepend-" + ("none" if prepend is None else "given" if prepend.endswith("\n") else "given-no-final-newline"),
+             "existing" if existing is not None else "fresh",
+             "layout-" + layout["kind"] + (str(layout.get("depth", "")) + ("-reexport" if layout.get("reexport") else ""))]
+    c = _new_case(rng, "gen", uid=uid, modbase=uid, layout=layout, module=mod, type_=type_, name_tpl=tpl, prepend=prepend,
+                  imports=imports, mapping_ref=mapping_ref, existing=existing, opts=opts)
     c["tags"] = tags
     if "key_override" in (mod["entries"][0] if mod["entries"] else {}):
         e = mod["entries"][0]
@@ -223,8 +327,10 @@ def gen_cli_case(rng):
         "output_filename": rng.choice(["out.py", "o2.py"]) if present(0.93) else None,
         "prepend": rng.choice(["PI = 3\\n", "import os\\nX = 1\\n", "a\\tb", "q\\\\n", "x\\x41y", "\\101\\7", "abc\\",
                                "\\x4", "\\q", "plain", "", "\\'\\\"", "\\u0041", "\\N{DASH}", "\\400", "\\18", "a\\\nb",
-                               "\\a\\b\\f\\v\\r", "\\x", "\\xzz", "\\0", "\\8", "-x = 1", "\\xe9"]) if present(0.5) else None,
-        "imports_from_file": rng.choice(["m", "/tmp/x.py", ""]) if present(0.4) else None,
+                               "\\a\\b\\f\\v\\r", "\\x", "\\xzz", "\\0", "\\8", "-x = 1", "\\xe9", "import os",
+                               "import pkg.mod", "import pkg.mod\\n", '\\"\\"\\"Doc\\"\\"\\"\\nimport m']) if present(0.5) else None,
+        "imports_from_file": rng.choice(["m", "/tmp/x.py", "", "m.C", "pkg.mod.Alpha", "pkg.sub.mod.Alpha.__init__", "Alpha"])
+        if present(0.4) else None,
         "emit_call": present(0.3),
         "decorators": [] if present(0.7) else rng.choice([["dataclass"], ["a", "b"], [""]]),
     }
@@ -381,9 +487,19 @@ def materialise(case):
     """temp package dir holding the input module (and the imports file, the existing output); returns the concrete
     arguments for gen.  Touches nothing but the new directory (safe to call from worker threads)."""
     mod = case["module"]
-    modname = "verif_genin_" + case["uid"]
+    n = names_of(case)
+    modname = n["modname"]
     tmp = tempfile.mkdtemp(prefix="verif_gen_")
-    with open(os.path.join(tmp, modname + ".py"), "w") as f:
+    parts = modname.split(".")
+    d = tmp
+    for i, p in enumerate(parts[:-1]):
+        d = os.path.join(d, p)
+        os.mkdir(d)
+        with open(os.path.join(d, "__init__.py"), "w") as f:
+            if n["reexport"]:
+                f.write("from .%s import %s\n" % (".".join(parts[i + 1:]), n["obj"]))
+    modfile = os.path.join(d, parts[-1] + ".py")
+    with open(modfile, "w") as f:
         f.write(mod["src"])
     imp = case["imports"]
     if imp["how"] == "other":
@@ -393,7 +509,9 @@ def materialise(case):
     elif imp["how"] == "module":
         imp_arg = modname
     elif imp["how"] == "file":
-        imp_arg = os.path.join(tmp, modname + ".py")
+        imp_arg = modfile
+    elif imp["how"] == "symbol":
+        imp_arg = symbol_path(case)[0]
     elif imp["how"] == "missing":
         imp_arg = "verif_no_such_module_" + case["uid"]
     else:
@@ -426,6 +544,50 @@ def activated(ws, remove=True):
         importlib.invalidate_caches()
         if remove:
             shutil.rmtree(ws["tmp"], ignore_errors=True)
+
+
+def forget_case_modules():
+    """drop the generated input modules from the import system: what one step imported must not help the next resolve"""
+    for k in [k for k in sys.modules if k.startswith("verif_genin_")]:
+        del sys.modules[k]
+    importlib.invalidate_caches()
+
+
+def prepend_namespace(prepend):
+    """the names bound by executing the import statements of the prepended text ({} when there are none, when the text
+    does not parse or when executing them raises)"""
+    ns = {}
+    if prepend:
+        try:
+            pm = ast.parse(prepend.strip())
+        except SyntaxError:
+            return {}
+        code = "\n".join(ast.unparse(s) for s in pm.body if isinstance(s, (ast.Import, ast.ImportFrom)))
+        try:
+            exec(compile(code, "<prepend>", "exec"), ns)
+        except Exception:  # noqa
+            return {}
+    ns.pop("__builtins__", None)
+    return ns
+
+
+def resolve_imports_file(arg, prepend):
+    """the file that `imports_from_file` names, worked out without doctrans: a path to a file; else an importable module;
+    else a dotted symbol path whose first component is bound by the imports of the prepended text — the file of the
+    module in which the named object is defined.  Raises what the import system / inspect raise."""
+    if os.path.isfile(arg):
+        return arg
+    try:
+        return inspect.getfile(importlib.import_module(arg))
+    except ModuleNotFoundError:
+        ns = prepend_namespace(prepend)
+        head, _, rest = arg.partition(".")
+        if head not in ns:
+            raise
+        obj = ns[head]
+        for a in (rest.split(".") if rest else []):
+            obj = getattr(obj, a)
+        return inspect.getfile(inspect.getmodule(obj))
 
 
 @contextlib.contextmanager
@@ -461,14 +623,16 @@ def _observe_in(case, ws):
         if imp_arg is None:
             file_in = Sym("none")
         else:
+            forget_case_modules()
             try:
-                fpath = imp_arg if os.path.isfile(imp_arg) else inspect.getfile(importlib.import_module(imp_arg))
+                fpath = resolve_imports_file(imp_arg, prepend)
                 with open(fpath, "rt") as f:
                     ftext = f.read()
                 file_in = [Sym("some"), [Sym("ok"), ftext]]
                 table_srcs.append(ftext)
             except Exception as e:  # noqa
                 file_in = [Sym("some"), [Sym("err"), Sym(kind_of(e))]]
+        forget_case_modules()
         prepend_eval = Sym("none")
         if imp_arg is not None and prepend:
             table_srcs.append(prepend.strip())
@@ -481,6 +645,7 @@ def _observe_in(case, ws):
                     prepend_eval = [Sym("some"), Sym(kind_of(e))]
             except SyntaxError:
                 pass
+        forget_case_modules()
         objs = None
         if "." not in input_mapping:
             mapping_in_head = ("err", "NotResolved")
@@ -573,6 +738,7 @@ def _observe_in(case, ws):
         gen_mod.open = open_
         exc = None
         o = case["opts"]
+        forget_case_modules()
         try:
             with warnings.catch_warnings():
                 warnings.simplefilter("ignore")
